@@ -74,7 +74,12 @@ def _block(r, depth: int, partials: bool) -> list:
             bind = None
             if r.random() < 0.5:
                 bind = [r.choice(["with", "for"]), _path(r), r.choice([None, r.choice(NAMES)])]
-            kwargs = [[k, _val(r)] for k in r.sample(NAMES, r.choice([0, 0, 1, 2]))]
+            kwargs = [[k, _val(r)] for k in r.sample(NAMES, r.choice([0, 0, 1, 2, 2]))]
+            if len(kwargs) == 2 and r.random() < 0.5:
+                # arguments that name one another: each is evaluated in the caller's scope, not next to its siblings
+                kwargs[1][1] = ["path", [kwargs[0][0]]]
+                if r.random() < 0.5:
+                    kwargs[0][1] = ["path", [kwargs[1][0]]]
             out.append(["include", name, bind, kwargs])
         else:
             out.append([r.choice(["incr", "decr"]), r.choice(NAMES)])
